@@ -75,6 +75,28 @@ func vTVPtrPost(s capnp.Struct, slot, discOff, disc int) {
 	vAssert(s.HasPtr(uint16(slot)), "C15.tv.pointer-setter-fills-the-slot")
 }
 
+// vTVSizePost: the allocator of a struct field / list field created an object of the schema's size
+// (for lists: one element of the schema's element size)
+func vTVSizePost(s capnp.Struct, slot int, isList bool, wantD, wantP int) {
+	p, err := s.Ptr(uint16(slot))
+	vAssert(err == nil, "C15.tv.allocated-object-readable")
+	if err != nil {
+		return
+	}
+	var sz capnp.ObjectSize
+	if isList {
+		l := p.List()
+		vAssert(l.Len() == 1, "C15.tv.list-allocator-length")
+		if l.Len() != 1 {
+			return
+		}
+		sz = l.Struct(0).Size()
+	} else {
+		sz = p.Struct().Size()
+	}
+	vAssert(int(sz.DataSize) == wantD && int(sz.PointerCount) == wantP, "C15.tv.allocator-uses-the-schema-size")
+}
+
 // vTVPost: the setter set the discriminant and touched nothing outside the field and the discriminant
 func vTVPost(s capnp.Struct, j int, old byte, off, n int, D, P, discOff, disc int) {
 	if disc >= 0 {
